@@ -376,7 +376,7 @@ def shard(ctx, acc):
     guard.limit_memory(4)
     env.set_options(dd, ['in.smt2', 'out.smt2', '/bin/true'])
     muts = all_mutators(dd)
-    total = 96 if ctx.quick else 640
+    total = 96 if ctx.quick else 400
 
     def body(case):
         nt, stats = run_inproc(dd, case, acc, ctx.tier, muts)
